@@ -10,6 +10,7 @@ import (
 	"go/types"
 	"math"
 	"reflect"
+	"regexp"
 	"sort"
 	"strconv"
 	"strings"
@@ -157,7 +158,19 @@ func init() {
 		"(*sync.RWMutex).RLock":   extNop,
 		"(*sync.RWMutex).RUnlock": extNop,
 
-		"time.Now":        extTimeNow,
+		"time.Now":         extTimeNow,
+		"time.runtimeNano": func(fr *frame, args []value) value { return int64(1) },
+		// (*Location).get loads the system's zone database for Local on first use (environment); modelled: Local is a
+		// zone-less location, i.e. behaves as UTC (native replays run with TZ=UTC)
+		"(*time.Location).get": func(fr *frame, args []value) value {
+			if l, _ := args[0].(*value); l != nil {
+				return l
+			}
+			if g, ok := fr.i.prog.ImportedPackage("time").Members["utcLoc"].(*ssa.Global); ok {
+				return fr.get(g)
+			}
+			return args[0]
+		},
 		"time.Since":      func(fr *frame, args []value) value { return int64(0) },
 		"(time.Time).Sub": extTimeSubNative,
 
@@ -193,6 +206,7 @@ func init() {
 		"strconv.ParseFloat": strconv.ParseFloat, "strconv.ParseBool": strconv.ParseBool, "strconv.FormatInt": strconv.FormatInt,
 		"strconv.FormatUint": strconv.FormatUint, "strconv.FormatFloat": strconv.FormatFloat, "strconv.FormatBool": strconv.FormatBool,
 		"strconv.Quote": strconv.Quote, "strconv.Unquote": strconv.Unquote,
+		"regexp.MatchString":             regexp.MatchString,
 		"unicode/utf8.RuneCountInString": utf8.RuneCountInString, "unicode/utf8.ValidString": utf8.ValidString,
 		"unicode/utf8.DecodeRuneInString": utf8.DecodeRuneInString, "unicode/utf8.RuneLen": utf8.RuneLen,
 		"unicode.IsSpace": unicode.IsSpace, "unicode.IsDigit": unicode.IsDigit, "unicode.IsLetter": unicode.IsLetter,
